@@ -470,6 +470,14 @@ def oracle(case, run):
         extra = [k for k in new_b if k not in dict((k, v) for k, v in dump["buckets"])]
         if extra:
             bad.append(("C14:extra-bucket", f"new store has buckets the legacy store has not: {extra}"))
+        # none dropped, durably: once the constructor has returned the migration is never re-run (the v1 file
+        # exists), so a second connection (= a process started after a crash right now) must see every row
+        nb_, ne_ = len(m["raw_buckets"]), len(m["raw_events"])
+        if m["committed_buckets"] != nb_ or m["committed_events"] != ne_:
+            bad.append(("C14:uncommitted-tail", f"after SqliteStorage(testing={t}) returned, a second connection sees "
+                                                f"{m['committed_buckets']} of {nb_} migrated buckets and {m['committed_events']} of "
+                                                f"{ne_} migrated events (the rest is in an open transaction; a crash now loses it "
+                                                f"for good)"))
     elif not case["pre_sqlite"]:
         # no legacy file of this profile (or custom path): nothing may appear in the new store, in particular
         # not the other profile's buckets.  (With a stray name that passes the name test the migration runs
@@ -694,7 +702,7 @@ def main(argv=None):
         return replay(argv[1])
     ck = Check("C14", argv)
     tmp = common.setup_impl_env()
-    ck.run_witnesses(["w10"])
+    ck.run_witnesses(["w10", "w19"])
     extra = ["Bridge/BridgeMigration.v"] if os.path.exists(os.path.join(common.COQ, "Bridge", "BridgeMigration.v")) else []
     ck.prove(extra_targets=extra, gen_kernels=["migration_loop", "migration_names"] if extra else [])
     have_driver = ck.driver()
